@@ -89,9 +89,17 @@ func diffEvent(want, got *mocrelay.Event) (field, detail string) {
 
 // runBattery asks every query of the battery.
 func runBattery(ctx context.Context, db *sql.DB, seed uint32, battery []*query) *stateInfo {
+	return collectBattery(battery, func(q *query) ([]*mocrelay.Event, error) {
+		return sqlite.VerifQueryEvent(ctx, db, seed, q.filters(), sqlite.NoLimit)
+	})
+}
+
+// collectBattery asks every query through ask (the white-box accessor, or a REQ through the
+// real handler) and reduces the answers to alphabet indices and field differences.
+func collectBattery(battery []*query, ask func(q *query) ([]*mocrelay.Event, error)) *stateInfo {
 	si := &stateInfo{answers: make([]answer, len(battery))}
 	for qi, q := range battery {
-		got, err := sqlite.VerifQueryEvent(ctx, db, seed, q.filters(), sqlite.NoLimit)
+		got, err := ask(q)
 		a := &si.answers[qi]
 		if err != nil {
 			a.err = err.Error()
